@@ -448,4 +448,76 @@ theorem discFold_settle (e : Env) (c0 : List Block) : ∀ (ro : List Block) (P :
         · exact Or.inr h
         · exact Or.inl (Or.inr h)
 
+
+-- ------------------------------------------------------------------ ONE MOVE = THE COMPOSITION
+
+theorem left_fork (c0 old new : List Block) (hf : ∀ x ∈ old, ∀ y ∈ c0 ++ new, y.id ≠ x.id) :
+    left (c0 ++ old) (c0 ++ new) = old := by
+  unfold left
+  rw [List.filter_append]
+  have h1 : c0.filter (fun b => !(c0 ++ new).any (fun b' => decide (b'.id = b.id))) = [] := by
+    rw [List.filter_eq_nil_iff]
+    intro x hx
+    simp only [Bool.not_eq_true', Bool.not_eq_false]
+    rw [List.any_eq_true]
+    exact ⟨x, List.mem_append_left _ hx, by simp⟩
+  have h2 : old.filter (fun b => !(c0 ++ new).any (fun b' => decide (b'.id = b.id))) = old := by
+    rw [List.filter_eq_self]
+    intro x hx
+    simp only [Bool.not_eq_true']
+    rw [List.any_eq_false]
+    intro y hy
+    simpa using hf x hx y hy
+  rw [h1, h2]; rfl
+
+/-- DOMAIN of a reorganising move from `c0 ++ old` to `c0 ++ new` (`c0` = the common part up to the FORK POINT), all
+    clauses facts of two valid branches, a pending list consistent with the old one, and per-block coinbases -/
+structure NotifyDom (e : Env) (c0 old new : List Block) (P : List Tx) : Prop where
+  disc : DiscAll e c0 old P
+  /-- `c0` is the fork point: no block of the old branch is on the new chain -/
+  fork : ∀ x ∈ old, ∀ y ∈ c0 ++ new, y.id ≠ x.id
+  /-- every prefix of the new chain is valid w.r.t. the candidates: a candidate that is on it is not conflicted by it,
+      spends no coinbase of the old branch, and has its parents on it -/
+  vok : ∀ k, k ≤ new.length → VOK (c0 ++ new.take k) old (P ++ backOf e old)
+
+/-- **ONE `onChainMoved old new` HAS THE MEMBERS OF THE BLOCK-BY-BLOCK COMPOSITION** (disconnect the old branch tip first,
+    then connect the new one) -/
+theorem notify_compose (e : Env) (c0 old new : List Block) (P : List Tx) (D : NotifyDom e c0 old new P) (t : Tx) :
+    t ∈ onChainMoved e (c0 ++ old) (c0 ++ new) P ↔
+      t ∈ (connFold e c0 new (discFold e c0 old (c0 ++ old, P))).2 := by
+  have hndU : ((P ++ backOf e old).map (·.id)).Nodup :=
+    List.Nodup.sublist (((List.Sublist.refl P).append (backOf_sublist e old)).map _) D.disc.nd
+  have hPo : ∀ x ∈ old.flatMap (·.txs), hasId P x.id = false := by
+    intro x hx
+    rw [hasId_false_iff]
+    intro y hy hid
+    have := D.disc.nd
+    rw [List.map_append] at this
+    exact (List.nodup_append.1 this).2.2 _ (List.mem_map.2 ⟨y, hy, rfl⟩) _ (List.mem_map.2 ⟨x, hx, rfl⟩) hid
+  have hone : onChainMoved e (c0 ++ old) (c0 ++ new) P = settle (c0 ++ new) old (P ++ backOf e old) := by
+    unfold onChainMoved
+    simp only [left_fork c0 old new D.fork]
+    congr 2
+    unfold backOf
+    apply List.filter_congr
+    intro x hx
+    rw [hPo x hx]; simp
+  obtain ⟨d1, d2, d3⟩ := discFold_settle e c0 old.reverse P (by rw [List.reverse_reverse]; exact D.disc)
+  rw [List.reverse_reverse] at d1 d2 d3
+  have hsubQ : ∀ q ∈ (discFold e c0 old (c0 ++ old, P)).2, q ∈ P ++ backOf e old :=
+    fun q hq => (settle_sublist _ _ _).subset ((d3 q).1 hq)
+  have hconsQ : Consistent c0 (discFold e c0 old (c0 ++ old, P)).2 :=
+    fun q hq => settle_consistent c0 old _ hndU q ((d3 q).1 hq)
+  have hV0 : ∀ k, k ≤ new.reverse.length → VOK (c0 ++ new.reverse.reverse.take k) [] (P ++ backOf e old) := by
+    intro k hk p hp hon
+    rw [List.reverse_reverse] at hon ⊢
+    obtain ⟨v1, _, v3⟩ := D.vok k (by simpa using hk) p hp hon
+    exact ⟨v1, rfl, v3⟩
+  obtain ⟨_, _, c3⟩ := connFold_settle e c0 (P ++ backOf e old) new.reverse _ _ d1 rfl d2 hsubQ hconsQ hV0
+  rw [List.reverse_reverse] at c3
+  rw [hone, c3, mem_settle_congr (c := c0 ++ new) (d := []) d2 (settle_nodup _ _ _ hndU) d3 t]
+  have hVall := D.vok new.length (Nat.le_refl _)
+  rw [List.take_length] at hVall
+  exact (settle_extend c0 new old (P ++ backOf e old) hndU hVall t).symm
+
 end MW.Lemmas.PendHist.Compose
